@@ -1002,6 +1002,12 @@ class CallMixin:
             return self.chrono_op(op, [a, b], n)
         if fa == 'prim' and fb == 'prim':
             return f'({self.ex(a)} {op} {self.ex(b)})'
+        if fa == 'array' and fb == 'array' and self.ctype(ta.strip_ref()) == self.ctype(tb.strip_ref()):
+            et = ta.strip_ref().args[0]
+            if et.kind == 'prim' and self.ctype(et) == 'uint8_t':
+                # std::array<uint8_t, N> compared lexicographically: memcmp order on unsigned bytes
+                self.helpers.add('memcmp')
+                return f'(cxx_memcmp({self.ex(a)}._, {self.ex(b)}._, sizeof({self.ctype(ta.strip_ref())})) {op} 0)'
         raise LoweringError(f'three-way comparison on {ta!r} / {tb!r}')
 
     # ---------------------------------------------------------------- construction
